@@ -53,44 +53,6 @@ theorem formulaTop_printL (F : Formula) (hF : Formula.Safe F) (rest : List Char)
     (hstop : lexConn (skip rest) = none) : formulaTop (Formula.printL F ++ rest) = some (F, rest) :=
   formulaL_printL F hF rest hr hstop (2 * (Formula.printL F ++ rest).length + 1) (by omega)
 
-/-- MOVE TO MODEL -/
-def dirOptL (r0 : List Char) : Direction × List Char :=
-  match skip r0 with
-  | '(' :: a =>
-    match lexDirection (skip a) with
-    | some (d, b) =>
-      match skip b with
-      | ')' :: c => (d, c)
-      | _ => (.universal, r0)
-    | none => (.universal, r0)
-  | _ => (.universal, r0)
-
-def nameOptL (r1 : List Char) : String × List Char :=
-  match skip r1 with
-  | '[' :: a =>
-    match lexSymConst (skip a) with
-    | some (n, b) =>
-      match skip b with
-      | ']' :: c => (String.ofList n, c)
-      | _ => ("", r1)
-    | none => ("", r1)
-  | _ => ("", r1)
-
-def annotatedL' (cs : List Char) : Option (SAnn × List Char) :=
-  match lexRole cs with
-  | none => none
-  | some (role, r0) =>
-    match dirOptL r0 with
-    | (dir, r1) =>
-      match nameOptL r1 with
-      | (name, r2) =>
-        match skip r2 with
-        | ':' :: r3 =>
-          match formulaTop (skip r3) with
-          | some (f, r4) => some (⟨role, dir, name, f⟩, r4)
-          | none => none
-        | _ => none
-
 /-- what follows the direction: `[name]` or `:` -/
 def AfterDir (X : List Char) : Prop := (∃ Y, X = '[' :: Y) ∨ (∃ Y, X = ':' :: Y)
 
@@ -157,15 +119,82 @@ theorem nameL_afterDir (n : String) (Y : List Char) : AfterDir (nameL n ++ ':' :
   · right; exact ⟨Y, rfl⟩
   · left; exact ⟨_, rfl⟩
 
-theorem annotatedL'_printL (a : SAnn) (ha : SAnn.Safe a) (rest : List Char) (hr : AtomicFollow rest)
-    (hstop : lexConn (skip rest) = none) : annotatedL' (SAnn.printL a ++ rest) = some (a, rest) := by
+theorem annotatedL_printL (a : SAnn) (ha : SAnn.Safe a) (rest : List Char) (hr : AtomicFollow rest)
+    (hstop : lexConn (skip rest) = none) : annotatedL (SAnn.printL a ++ rest) = some (a, rest) := by
   have htop := formulaTop_printL a.formula ha.2 rest hr hstop
   have hsF := skip_of_startsSolid ((Formula.printL_startsSolid a.formula ha.2).append rest)
   have e : SAnn.printL a ++ rest =
       roleL a.role ++ (dirL a.direction ++ (nameL a.name ++ ':' :: (' ' :: (Formula.printL a.formula ++ rest)))) := by
     simp [SAnn.printL]
   rw [e]
-  simp only [annotatedL', lexRole_print, dirOptL_print _ _ (nameL_afterDir _ _), nameOptL_print _ ha.1,
+  simp only [annotatedL, lexRole_print, dirOptL_print _ _ (nameL_afterDir _ _), nameOptL_print _ ha.1,
     skip_cons_solid _ (show Solid ':' from ⟨by decide, by decide⟩), skip_space, hsF, htop]
+
+/-! ## specifications -/
+
+def specL : List SAnn → List Char
+  | [] => []
+  | a :: as => SAnn.printL a ++ '.' :: '\n' :: specL as
+
+theorem printSpecification_toList (s : Specification) : (printSpecification s).toList = specL s := by
+  induction s with
+  | nil => rfl
+  | cons a as ih =>
+    simp only [printSpecification, List.map_cons, String.join_cons, String.toList_append, SAnn.print_toList] at ih ⊢
+    rw [ih]
+    simp [specL]
+
+def Specification.Safe (s : Specification) : Prop := ∀ a ∈ s, SAnn.Safe a
+
+theorem roleL_startsSolid (r : SRole) : StartsSolid (roleL r) := by
+  cases r <;> exact ⟨_, _, rfl, by decide, by decide⟩
+
+theorem SAnn.printL_startsSolid (a : SAnn) : StartsSolid (SAnn.printL a) :=
+  (roleL_startsSolid a.role).append _
+
+theorem skip_specL (s : List SAnn) : skip (specL s) = specL s := by
+  cases s with
+  | nil => rfl
+  | cons a as => exact skip_of_startsSolid ((SAnn.printL_startsSolid a).append _)
+
+theorem specL_length (s : List SAnn) : s.length ≤ (specL s).length := by
+  induction s with
+  | nil => simp
+  | cons a as ih => simp only [specL, List.length_cons, List.length_append]; omega
+
+theorem lexRole_nil : lexRole [] = none := by simp [lexRole, stripPrefix]
+
+theorem annotatedL_nil : annotatedL [] = none := by simp [annotatedL, lexRole_nil]
+
+theorem annotatedDot_print : ∀ (s : List SAnn), (∀ a ∈ s, SAnn.Safe a) → ∀ (cs : List Char) (n : Nat),
+    skip cs = specL s → s.length < n → ∃ tail, annotatedDot n cs = (s, tail) ∧ skip tail = [] := by
+  intro s
+  induction s with
+  | nil =>
+    intro _ cs n hcs hn
+    obtain ⟨n0, rfl⟩ : ∃ n0, n = n0 + 1 := ⟨n - 1, by omega⟩
+    refine ⟨cs, ?_, hcs⟩
+    simp only [annotatedDot, hcs, specL, annotatedL_nil]
+  | cons a as ih =>
+    intro hs cs n hcs hn
+    simp only [List.length_cons] at hn
+    obtain ⟨n0, rfl⟩ : ∃ n0, n = n0 + 1 := ⟨n - 1, by omega⟩
+    have ha := hs a List.mem_cons_self
+    have htop := annotatedL_printL a ha ('.' :: '\n' :: specL as) (atomicFollow_dot _) (lexConn_dot _)
+    obtain ⟨tail, h1, h2⟩ := ih (fun b hb => hs b (List.mem_cons_of_mem _ hb)) ('\n' :: specL as) n0
+      (by rw [skip_newline]; exact skip_specL as) (by omega)
+    refine ⟨tail, ?_, h2⟩
+    simp only [annotatedDot, hcs, specL, htop, skip_cons_solid ('\n' :: specL as) (show Solid '.' from ⟨by decide, by decide⟩), h1]
+
+/-- **Round trip.** Parsing the printed text of a specification of safe annotated formulas returns it. -/
+theorem parseSpecification_printSpecification (s : Specification) (hs : Specification.Safe s) :
+    parseSpecification (printSpecification s) = some s := by
+  have hlen : s.length < (printSpecification s).length + 1 := by
+    have := specL_length s
+    rw [← printSpecification_toList, String.length_toList] at this
+    omega
+  obtain ⟨tail, h1, h2⟩ := annotatedDot_print s hs (printSpecification s).toList ((printSpecification s).length + 1)
+    (by rw [printSpecification_toList]; exact skip_specL s) hlen
+  simp only [parseSpecification, h1, h2]
 
 end Anthem.Fol
